@@ -93,7 +93,22 @@ def _cli_at_rule(fn):
     return cands[0]
 
 
+def _cli_decl_scan(fn):
+    """the loop that picks a rule's text-colour and background declarations: the unique `for` whose body starts with `if <target>.name == "color"`"""
+    cands = []
+    for n in ast.walk(fn):
+        if isinstance(n, ast.For) and isinstance(n.target, ast.Name) and n.body and isinstance(n.body[0], ast.If):
+            for t in ast.walk(n.body[0].test):
+                if isinstance(t, ast.Compare) and ast.unparse(t.left) == f'{n.target.id}.name' and len(t.comparators) == 1 and isinstance(t.comparators[0], ast.Constant) and t.comparators[0].value == 'color':
+                    cands.append(n); break
+    if len(cands) != 1: raise KeyError(f'{len(cands)} candidate declaration-scan loops in process_nodes_recursive')
+    return cands[0]
+
+
 EXTRACTIONS = {
+    'cm_colors.cli.main:process_nodes_recursive__decl_scan': dict(
+        outer='process_nodes_recursive', select=_cli_decl_scan,
+        drops='everything but the loop over the rule\'s parsed declarations (inputs: the list of Declaration objects and the initial None values of the two results)'),
     'cm_colors.cli.main:process_nodes_recursive__at_rule': dict(
         outer='process_nodes_recursive', select=_cli_at_rule,
         drops='the enclosing loop over the node list and the branch for qualified rules (a separate extraction)'),
